@@ -60,6 +60,37 @@ pub fn roundtrip_blocks(blocks: &[Block], out: &mut Outcome, what: &str) {
         }
         Ok(Ok(())) => {}
     }
+    // write_blocks takes any iterator: one without an exact size hint (a filter, a generator
+    // closure) must produce the same bytes
+    if blocks.len() < 64 {
+        let mut k = 0usize;
+        let generator = std::iter::from_fn(|| {
+            let b = blocks.get(k);
+            k += 1;
+            b
+        });
+        for (name, res) in [
+            ("filter", guarded(|| {
+                let mut v = vec![];
+                write_blocks(&mut v, blocks.iter().filter(|_| true)).map(|()| v)
+            })),
+            ("from_fn", guarded(|| {
+                let mut v = vec![];
+                write_blocks(&mut v, generator).map(|()| v)
+            })),
+        ] {
+            match res {
+                Err(p) => out.fails.push(Fail::panic(&format!("{what}:write-panic"), &p)),
+                Ok(Err(e)) => out.fail(format!("{what}:iterator-kind-changes-result:{name}"), format!("write_blocks over a {name} iterator fails ({e}) although the slice iterator succeeds")),
+                Ok(Ok(v)) => {
+                    if v != bytes {
+                        let at = v.iter().zip(&bytes).position(|(a, b)| a != b);
+                        out.fail(format!("{what}:iterator-kind-changes-result:{name}"), format!("write_blocks over a {name} iterator writes different bytes (first difference at {at:?}, {} vs {} bytes)", v.len(), bytes.len()));
+                    }
+                }
+            }
+        }
+    }
     // the reader must accept the writer's output and give back equal values
     match guarded(|| read_blocks(Cursor::new(&bytes)).collect::<Result<Vec<Block>, _>>()) {
         Err(p) => out.fails.push(Fail::panic(&format!("{what}:read-panic"), &p)),
